@@ -212,7 +212,8 @@ def _run(chk, tier, jobs, deadline, exe, canon):
                     one = ln["one"]
                     sigcount.setdefault(ln["sig"], 0)
                     # keep the simplest failing case of every signature (fewest items, cuts, bytes)
-                    key = (len(one), one)
+                    # (preferring one in which the peer is still connected and yet "closed" is reported)
+                    key = (not ("(peer closed)" in ln["text"] and "end=silence" in one), len(one), one)
                     if ln["sig"] not in best or key < best[ln["sig"]][0]:
                         best[ln["sig"]] = (key, ln["text"], one)
                 elif t == "crash":
